@@ -681,7 +681,22 @@ impl Property for C10 {
                 c.faults.push(Fault { path: p, nth, kind });
             }
         }
-        sc.threads = vec![vec![Op::Call(c)]];
+        let mut ops = vec![Op::Call(c.clone())];
+        if rng.chance(1, 4) {
+            // a second call in the same process: other order / subset of search directories, other flags
+            let mut c2 = c.clone();
+            rng.shuffle(&mut c2.include_paths);
+            if c2.include_paths.len() > 1 && rng.coin() {
+                c2.include_paths.pop();
+            }
+            if !neighbours && rng.chance(1, 3) {
+                c2.ignore_include = !c2.ignore_include;
+            }
+            c2.api = Api::Preprocess;
+            c2.faults.clear();
+            ops.push(Op::Call(c2));
+        }
+        sc.threads = vec![ops];
         sc.family = if ignore { "ignore_include".into() } else if neighbours { "neighbours".into() } else { "graph".into() };
         sc
     }
@@ -689,7 +704,7 @@ impl Property for C10 {
     fn valid(&self, sc: &Scenario) -> bool {
         // the file system must hold exactly the structured form
         let files = files_of(sc);
-        if !files.contains_key("/w/top.sv") || sc.calls().count() != 1 {
+        if !files.contains_key("/w/top.sv") || sc.calls().count() < 1 || sc.threads.len() != 1 {
             return false;
         }
         let mut n = 0;
@@ -706,8 +721,7 @@ impl Property for C10 {
                 }
             }
         }
-        let c = sc.calls().next().unwrap();
-        n == files.len() && c.text.is_none() && c.path == "top.sv"
+        n == files.len() && sc.calls().all(|c| c.text.is_none() && c.path == "top.sv")
     }
 
     fn shrink(&self, sc: &Scenario) -> Vec<Scenario> {
@@ -751,8 +765,7 @@ impl Property for C10 {
             return rep;
         }
         let files = files_of(sc);
-        let call = sc.calls().next().unwrap().clone();
-        // ---- implementation
+        // ---- implementation: all calls of the scenario on one thread of one process
         let out = exec(sc, &ExecOpts::default());
         rep.execs += 1;
         rep.steps += out.steps;
@@ -761,23 +774,49 @@ impl Property for C10 {
             rep.harness_error = Some(e.clone());
             return rep;
         }
-        let o = match out.calls.first() {
-            Some(o) => o.clone(),
-            None => {
-                rep.harness_error = Some("no outcome".into());
-                return rep;
-            }
-        };
+        let calls: Vec<(usize, Call)> = sc.threads[0]
+            .iter()
+            .enumerate()
+            .filter_map(|(i, op)| match op {
+                Op::Call(c) => Some((i, c.clone())),
+                _ => None,
+            })
+            .collect();
+        if calls.len() > 1 {
+            rep.probe("two_calls_one_process", 1);
+        }
+        for (k, (idx, call)) in calls.iter().enumerate() {
+            let o = match out.call(0, *idx) {
+                Some(o) => o.clone(),
+                None => {
+                    rep.harness_error = Some("no outcome".into());
+                    return rep;
+                }
+            };
+            let events: Vec<Event> = out.log.iter().filter(|e| e.call == *idx).cloned().collect();
+            self.judge(sc, &files, call, k, *idx, &o, &events, &mut rep);
+        }
+        rep.distinct_key = sc.hash();
+        rep
+    }
+}
+
+impl C10 {
+    /// each call is judged on its own: the model starts from the call's arguments and a pristine conversation
+    #[allow(clippy::too_many_arguments)]
+    fn judge(&self, sc: &Scenario, files: &BTreeMap<String, Vec<Line>>, call: &Call, k: usize, idx: usize, o: &crate::exec::CallOutcome, events: &[Event], rep: &mut RunReport) {
+        let call = call.clone();
+        let o = o.clone();
         // ---- model, against a twin file system with the same fault plan
         let twin = Arc::new(Vfs::new(&sc.cwd, &sc.vfs, sc.knobs.open_budget));
-        twin.begin_call(0, 0, &call.faults);
+        twin.begin_call(0, idx, &call.faults);
         let mut table: Table = BTreeMap::new();
         for d in &call.defines {
             table.insert(d.name.clone(), if d.has_value { d.text.clone() } else { None });
         }
         let mut m = Model {
             vfs: twin.clone(),
-            files: &files,
+            files,
             include_paths: call.include_paths.clone(),
             ignore_include: call.ignore_include,
             cwd: sc.cwd.clone(),
@@ -802,22 +841,21 @@ impl Property for C10 {
             if let Some(s) = unmodelled(e) {
                 // the generator left the modelled language: a harness matter, never a verdict
                 rep.probe("unmodelled_skipped", 1);
-                rep.sample = None;
                 let _ = s;
-                return rep;
+                return;
             }
         }
         let mlog = log_view(&twin.log());
-        let ilog = log_view(&out.log);
+        let ilog = log_view(events);
         let model_tokens = m.out.clone();
-        let mut fail = |rep: &mut RunReport, clause: &str, kind: &str, expected: String, observed: String, detail: String| {
+        let fail = |rep: &mut RunReport, clause: &str, kind: &str, expected: String, observed: String, detail: String| {
             if rep.violations.is_empty() {
                 rep.violations.push(Violation {
                     property: "C10".into(),
                     clause: clause.into(),
                     kind: kind.into(),
                     thread: 0,
-                    call: 0,
+                    call: idx,
                     expected,
                     observed,
                     detail,
@@ -825,9 +863,9 @@ impl Property for C10 {
             }
         };
         if let Some(p) = &o.panic {
-            fail(&mut rep, "C10.returns", "panic", "Ok or Err".into(), format!("PANIC {}", p), "the call panicked".into());
+            fail(rep, "C10.returns", "panic", "Ok or Err".into(), format!("PANIC {}", p), "the call panicked".into());
         } else if o.budget_exceeded {
-            fail(&mut rep, "C10.returns", "budget-exhausted", "termination".into(), "budget".into(), "step budget exhausted".into());
+            fail(rep, "C10.returns", "budget-exhausted", "termination".into(), "budget".into(), "step budget exhausted".into());
         } else if let Some(d) = &o.digest {
             match (&mres, d.is_ok()) {
                 (Ok(()), true) => {
@@ -836,7 +874,7 @@ impl Property for C10 {
                     if toks != model_tokens {
                         let i = (0..toks.len().max(model_tokens.len())).find(|i| toks.get(*i) != model_tokens.get(*i)).unwrap_or(0);
                         fail(
-                            &mut rep,
+                            rep,
                             "C10.spliced_tokens",
                             "model-mismatch",
                             format!("token #{} = {:?} of {:?}", i, model_tokens.get(i), model_tokens),
@@ -856,7 +894,7 @@ impl Property for C10 {
                     let want: Table = table.iter().filter(|(k, _)| !k.starts_with("SV_COV_")).map(|(k, v)| (k.clone(), v.clone())).collect();
                     if got != want {
                         fail(
-                            &mut rep,
+                            rep,
                             "C10.defines_flow",
                             "model-mismatch",
                             format!("{:?}", want),
@@ -877,7 +915,7 @@ impl Property for C10 {
                             "C10.error_value"
                         };
                         fail(
-                            &mut rep,
+                            rep,
                             clause,
                             "wrong-error-shape",
                             want,
@@ -887,7 +925,7 @@ impl Property for C10 {
                     }
                 }
                 (Ok(()), false) => fail(
-                    &mut rep,
+                    rep,
                     if d.err.as_deref().map(|e| e.contains("IncludeLine")).unwrap_or(false) { "C10.include_line_false_reject" } else { "C10.error_value" },
                     "wrong-error-shape",
                     format!("Ok with tokens {:?}", model_tokens),
@@ -895,7 +933,7 @@ impl Property for C10 {
                     "rejected although the reference model accepts".into(),
                 ),
                 (Err(me), true) => fail(
-                    &mut rep,
+                    rep,
                     if me.render().contains("IncludeLine") { "C10.include_line_false_accept" } else { "C10.error_value" },
                     "wrong-error-shape",
                     me.render(),
@@ -908,7 +946,7 @@ impl Property for C10 {
                 let i = (0..mlog.len().max(ilog.len())).find(|i| mlog.get(*i) != ilog.get(*i)).unwrap_or(0);
                 let clause = if call.ignore_include { "C10.ignore_include_reads_nothing" } else { "C10.resolution_protocol" };
                 fail(
-                    &mut rep,
+                    rep,
                     clause,
                     "io-monitor",
                     format!("op #{}: {}", i, mlog.get(i).cloned().unwrap_or_else(|| "<no further operation>".into())),
@@ -1025,17 +1063,17 @@ impl Property for C10 {
             }
         }
         let faulted = !rep.fired.is_empty();
-        rep.nontrivial = tlog.iter().any(|e| e.op == "exists") || faulted || has_ok_neighbour || matches!(mres, Err(_));
-        rep.distinct_key = sc.hash();
-        let mut top = String::new();
-        render(files.get("/w/top.sv").map(|v| v.as_slice()).unwrap_or(&[]), &mut top);
-        rep.sample = Some(json!({
-            "files": sc.vfs.iter().filter_map(|n| match n { VNode::File { path, bytes: Bytes::Text(t) } => Some(json!({"path": path, "text": t})), _ => None }).take(6).collect::<Vec<_>>(),
-            "call": describe_call(&call),
-            "model": match &mres { Ok(()) => json!({"tokens": model_tokens}), Err(e) => json!({"error": e.render()}) },
-            "library": o.short(),
-            "conversation": ilog.iter().take(12).collect::<Vec<_>>(),
-        }));
-        rep
+        if tlog.iter().any(|e| e.op == "exists") || faulted || has_ok_neighbour || matches!(mres, Err(_)) {
+            rep.nontrivial = true;
+        }
+        if k == 0 {
+            rep.sample = Some(json!({
+                "files": sc.vfs.iter().filter_map(|n| match n { VNode::File { path, bytes: Bytes::Text(t) } => Some(json!({"path": path, "text": t})), _ => None }).take(6).collect::<Vec<_>>(),
+                "call": describe_call(&call),
+                "model": match &mres { Ok(()) => json!({"tokens": model_tokens}), Err(e) => json!({"error": e.render()}) },
+                "library": o.short(),
+                "conversation": ilog.iter().take(12).collect::<Vec<_>>(),
+            }));
+        }
     }
 }
